@@ -13,7 +13,11 @@ import Driver.Util
 cfg = `<all>/<ip>/<source>/<destination>/<reap>/<maxB>`, each scope `-` or a comma list of `s<N>` / `r<N>`.
 Tokens `k.<addr>.<take>.<undo>.<rel>` (anywhere after cfg; `grp`, `sess`, `rem`): the key of the per-IP bucket set
 the code was observed to derive from address `<addr>` in `TakeMsg`, in its roll-back and in `ReleaseMsg`
-(`IpKeys`); addresses without a token are their own key.  The `ip` field of every op is an ADDRESS id. -/
+(`IpKeys`); addresses without a token are their own key.  The `ip` field of every op is an ADDRESS id.
+Tokens `j.<spelling>.<conn>.<take>.<undo>.<close>.<src>.<srcRel>` (`rem`): the keys the remote target was observed
+to derive from domain spelling `<spelling>` (`RemKeys`: key of `rd.connections`, of `TakeDest`, of `ReleaseDest`
+after a failed MAIL, of `ReleaseDest` in `Close`, of `TakeMsg` in `Start`, of `ReleaseMsg` in `Close`); spellings
+without a token are their own key everywhere.  The `dom` / `dd` fields of `rem` ops are SPELLING ids. -/
 namespace Driver.C11
 open MaddyVerif.Limits Driver
 
@@ -50,7 +54,19 @@ def parseKeys (ops : List String) : Option IpKeys := do
     | none => a
   pure { take := look (fun e => e.2.1), undo := look (fun e => e.2.2.1), rel := look (fun e => e.2.2.2) }
 
-def dropKeys (ops : List String) : List String := ops.filter (fun t => !t.startsWith "k.")
+def dropKeys (ops : List String) : List String := ops.filter (fun t => !(t.startsWith "k." || t.startsWith "j."))
+
+/-- The `j.` tokens of a `rem` line → the key derivation of the remote target; `none`: ill-formed token. -/
+def parseRemKeys (ops : List String) : Option RemKeys := do
+  let tab ← (ops.filter (fun t => t.startsWith "j.")).mapM (fun t =>
+    match ((t.splitOn ".").drop 1).mapM String.toNat? with
+    | some [d, cn, tk, u, cl, sr, srr] => some (d, [cn, tk, u, cl, sr, srr])
+    | _ => none)
+  let look := fun (i : Nat) (d : Nat) =>
+    match tab.find? (fun e => e.1 == d) with
+    | some e => e.2.getD i d
+    | none => d
+  pure { conn := look 0, take := look 1, undo := look 2, close := look 3, src := look 4, srcRel := look 5 }
 
 /-- cfg token + the `k.` tokens among the ops. -/
 def parseCfgK (cfg : String) (ops : List String) : Option Cfg := do
@@ -250,7 +266,7 @@ def parseNote : List String → Option RcptRes
     else none
   | _ => none
 
-def runRem (c : Cfg) : St → List (Nat × Rem) → List String → List String → Option (List String)
+def runRem (c : Cfg) (k : RemKeys) : St → List (Nat × Rem) → List String → List String → Option (List String)
   | _, _, [], acc => some acc.reverse
   | s, m, op :: rest, acc =>
     let f := op.splitOn "."
@@ -260,13 +276,13 @@ def runRem (c : Cfg) : St → List (Nat × Rem) → List String → List String 
       match id.toNat?, ip.toNat?, dom.toNat?, flag == [] || flag == ["so"] || flag == ["rt"] with
       | some id, some ip, some dom, true =>
         let r0 : Rem := { ip := ip, dom := dom }
-        let r := runCmd c s (fun ok => r0.op ok .start)
+        let r := runCmd c s (fun ok => r0.op k ok .start)
         if r.2.2 then some ("panic" :: acc).reverse
-        else runRem c r.2.1 (if r.1.started then store m id r.1 else m) rest (obs r.2.1 :: acc)
+        else runRem c k r.2.1 (if r.1.started then store m id r.1 else m) rest (obs r.2.1 :: acc)
       | _, _, _, _ => none
     | ["p", n] =>
       match n.toNat? with
-      | some _ => runRem c s m rest (obs s :: acc)
+      | some _ => runRem c k s m rest (obs s :: acc)
       | none => none
     | "a" :: id :: dd :: co :: mo :: note =>
       match id.toNat?, dd.toNat?, parseNote note with
@@ -274,9 +290,9 @@ def runRem (c : Cfg) : St → List (Nat × Rem) → List String → List String 
         match lookup m id with
         | none => none
         | some rr =>
-          let r := runCmd c s (fun ok => rr.op ok (.addRcpt dd (co == "1") (mo == "1") rc))
+          let r := runCmd c s (fun ok => rr.op k ok (.addRcpt dd (co == "1") (mo == "1") rc))
           if r.2.2 then some ("panic" :: acc).reverse
-          else runRem c r.2.1 (store m id r.1) rest (obs r.2.1 :: acc)
+          else runRem c k r.2.1 (store m id r.1) rest (obs r.2.1 :: acc)
       | _, _, _ => none
     | "x" :: id :: how =>
       match id.toNat? with
@@ -285,10 +301,10 @@ def runRem (c : Cfg) : St → List (Nat × Rem) → List String → List String 
         | none => none
         | some rr =>
           -- Body (when the harness calls it) makes no Group call and keeps the state; then Close
-          let rb := if how.head? == some "abort" || how.isEmpty then rr else (rr.op true .body).1
-          let r := runCmd c s (fun ok => rb.op ok .close)
+          let rb := if how.head? == some "abort" || how.isEmpty then rr else (rr.op k true .body).1
+          let r := runCmd c s (fun ok => rb.op k ok .close)
           if r.2.2 then some ("panic" :: acc).reverse
-          else runRem c r.2.1 (m.filter (fun p => p.1 != id)) rest (obs r.2.1 :: acc)
+          else runRem c k r.2.1 (m.filter (fun p => p.1 != id)) rest (obs r.2.1 :: acc)
       | none => none
     | _ => none
 
@@ -311,12 +327,12 @@ def handle : List String → String
       | none => "bad-op"
     | none => "bad-op"
   | "rem" :: cfg :: ops =>
-    match parseCfgK cfg ops with
-    | some c =>
-      match runRem c (start c) [] (dropKeys ops) [] with
+    match parseCfgK cfg ops, parseRemKeys ops with
+    | some c, some k =>
+      match runRem c k (start c) [] (dropKeys ops) [] with
       | some l => " ".intercalate l
       | none => "bad-op"
-    | none => "bad-op"
+    | _, _ => "bad-op"
   | _ => "bad-op"
 
 end Driver.C11
